@@ -273,6 +273,8 @@ impl Broker {
                             }
                         } else if variant == 2 && matches!(kind, AckKind::PubAck | AckKind::PubRec) && reason == 0 {
                             0x10 // "no matching subscribers": a success
+                        } else if variant == 11 && kind == AckKind::PubRel {
+                            0x92
                         } else {
                             reason
                         };
@@ -284,7 +286,7 @@ impl Broker {
                             pid,
                             reason,
                             props: vec![],
-                            form: if reason == 0 { 0 } else { 1 },
+                            form: if variant == 12 { 2 } else if reason == 0 { 0 } else { 1 },
                         }
                     }
                     Owed::SubAck { pid, n } => SPacket::SubAck {
@@ -346,6 +348,13 @@ impl Broker {
                 } | Owed::SubAck { .. }
                     | Owed::UnsubAck { .. }
             ),
+            _ => false,
+        }
+    }
+
+    pub fn is_pubrel(&self, e: &Emit) -> bool {
+        match e {
+            Emit::Owed(i) => matches!(self.owed[*i], Owed::Ack { kind: AckKind::PubRel, reason: 0, .. }),
             _ => false,
         }
     }
@@ -417,6 +426,25 @@ impl Broker {
         self.owed.clear();
         self.connected = false;
         self.conn_closed = true;
+    }
+}
+
+/// Legal CONNACK properties that must make no difference to the client (it has no use for them).
+pub fn connack_extras(code: u8) -> Vec<Prop> {
+    let s = |id: u8, t: &str| Prop { id, val: PVal::Str(t.as_bytes().to_vec()) };
+    let b = |id: u8, x: u8| Prop { id, val: PVal::Byte(x) };
+    match code {
+        1 => vec![Prop { id: 0x11, val: PVal::U32(0) }],
+        2 => vec![Prop { id: 0x11, val: PVal::U32(0xFFFF_FFFF) }],
+        3 => vec![b(0x25, 0), b(0x28, 0), b(0x29, 0), b(0x2A, 0)],
+        4 => vec![Prop { id: 0x22, val: PVal::U16(10) }],
+        5 => vec![
+            s(0x1F, "welcome"),
+            Prop { id: 0x26, val: PVal::Pair(b"k".to_vec(), b"1".to_vec()) },
+            Prop { id: 0x26, val: PVal::Pair(b"k".to_vec(), b"2".to_vec()) },
+        ],
+        6 => vec![s(0x1A, "resp/"), s(0x1C, "other.example:1883")],
+        _ => vec![],
     }
 }
 
